@@ -40,9 +40,10 @@ MallocRefused == /\ call # ""
 FreeOk(a) == /\ call # "" /\ a \in live
              /\ live' = live \ {a} /\ made' = made \ {a} /\ UNCHANGED <<call, failed>>
 
-(* realloc: old = "null" behaves as malloc; on success the old block is gone (possibly same address) *)
+(* realloc of a live block (realloc (NULL, n) is a malloc: callers use MallocOk): on success the old block is *)
+(* gone (possibly same address); a refused realloc (MallocRefused) leaves the old block live                  *)
 ReallocOk(old, new) ==
-    /\ call # "" /\ (old = "null" \/ old \in live) /\ (new = old \/ new \notin live)
+    /\ call # "" /\ old \in live /\ (new = old \/ new \notin live)
     /\ live' = (live \ {old}) \cup {new} /\ made' = (made \ {old}) \cup {new} /\ UNCHANGED <<call, failed>>
 
 (* kind: "ctor" (returns an object or NULL), "status" (TRUE/FALSE), "void" *)
